@@ -204,8 +204,16 @@ static bool MaskMatches(uint32_t eid, uint32_t failMask) {
   return false;
 }
 
-//! KNOWN defects of the real interpreter (reported, not oracle bugs): returns a tag or "".
-static std::string KnownDefect(const std::string& /*expr*/, const RealResult& /*real*/, const ref::EvalResult& /*oracle*/) {
+//! KNOWN defects of the real front end (reported, not oracle bugs): returns a tag or "".
+static std::string KnownDefect(const std::string& expr, const RealResult& /*real*/, const ref::EvalResult& oracle) {
+  // TypeAuditor::ViRecursion re-types the recursion variable up to 5 times and accepts the expression even
+  // if its type never stabilises (e.g. R{(a,b):=(C1,∅) | X1∈a | (b,a)}: a is ℬ(C1) and ℬ(R0) alternately), so the
+  // condition / step are checked against a type the variable does not have at run time. The oracle notices
+  // operands that cannot be of one type (F_MALFORMED); the real interpreter compares them as "equal".
+  if ((oracle.failMask >> ref::F_MALFORMED & 1U) != 0 && expr.find("R{") != std::string::npos
+      && expr.find("∅") != std::string::npos) {
+    return "ill-typed recursion accepted by TypeAuditor (type of the variable does not stabilise)";
+  }
   return {};
 }
 
